@@ -337,33 +337,35 @@ theorem skipWs_ws {c : Nat} (h : isWsRune c = true) (r : List Nat) :
   rw [skipWs]
   simp [hne, isWs_of_wsRune h]
 
-/-- inside a comment: text without LF, then LF -/
-theorem skipWs_comment (t r : List Nat) (ht : ∀ c ∈ t, c ≠ 0x0a) :
-    skipWs C .eof true (t ++ 0x0a :: r) = skipWs C .eof false r := by
+/-- inside a comment: text without LF / CR, then LF or CR -/
+theorem skipWs_comment (t r : List Nat) (ht : ∀ c ∈ t, c ≠ 0x0a ∧ c ≠ 0x0d) (z : Nat) (hz : z = 0x0a ∨ z = 0x0d) :
+    skipWs C .eof true (t ++ z :: r) = skipWs C .eof false r := by
   induction t with
-  | nil => simp [skipWs]
+  | nil => simp [skipWs, hz]
   | cons c t ih =>
     simp only [List.cons_append]
     rw [skipWs]
-    rw [if_neg (ht c List.mem_cons_self)]
+    have := ht c List.mem_cons_self
+    rw [if_neg (by intro h; rcases h with h | h; exact this.1 h; exact this.2 h)]
     exact ih (fun x hx => ht x (List.mem_cons_of_mem _ hx))
 
-theorem skipWs_comment_end (t : List Nat) (ht : ∀ c ∈ t, c ≠ 0x0a) :
+theorem skipWs_comment_end (t : List Nat) (ht : ∀ c ∈ t, c ≠ 0x0a ∧ c ≠ 0x0d) :
     skipWs C .eof true t = .end_ := by
   induction t with
   | nil => simp [skipWs]
   | cons c t ih =>
     rw [skipWs]
-    rw [if_neg (ht c List.mem_cons_self)]
+    have := ht c List.mem_cons_self
+    rw [if_neg (by intro h; rcases h with h | h; exact this.1 h; exact this.2 h)]
     exact ih (fun x hx => ht x (List.mem_cons_of_mem _ hx))
 
-theorem commentText_noLf (t : List Nat) : ∀ c ∈ commentText t, c ≠ 0x0a := by
+theorem commentText_noEol (t : List Nat) : ∀ c ∈ commentText t, c ≠ 0x0a ∧ c ≠ 0x0d := by
   intro c hc
   simp only [commentText, List.mem_filter, Bool.and_eq_true, bne_iff_ne] at hc
-  exact hc.2.1
+  exact hc.2
 
 include hC in
-theorem renderItem_skip (b : Bool) (it : LItem) (hit : itemLf it = true) (r : List Nat) (hb : b = true → r = []) :
+theorem renderItem_skip (b : Bool) (it : LItem) (r : List Nat) (hb : b = true → r = []) :
     skipWs C .eof false (renderItem b it ++ r) = skipWs C .eof false r := by
   cases it with
   | ws c => exact skipWs_ws hC (wsRune_ws c) r
@@ -371,19 +373,20 @@ theorem renderItem_skip (b : Bool) (it : LItem) (hit : itemLf it = true) (r : Li
     simp only [renderItem, List.cons_append]
     rw [skipWs]
     simp only [if_true]
-    have hno := commentText_noLf t
-    have lf : skipWs C .eof true (commentText t ++ 0x0a :: r) = skipWs C .eof false r := skipWs_comment _ _ hno
-    match eol, hit with
-    | 0, _ => simpa [eolText] using lf
-    | 1, _ =>
-      have : ∀ c ∈ commentText t ++ [0x0d], c ≠ 0x0a := by
-        intro c hc
-        rcases List.mem_append.1 hc with hc | hc
-        · exact hno c hc
-        · simp at hc; subst hc; decide
-      have := skipWs_comment (C := C) (commentText t ++ [0x0d]) r this
+    have hno := commentText_noEol t
+    have lf : skipWs C .eof true (commentText t ++ 0x0a :: r) = skipWs C .eof false r :=
+      skipWs_comment _ _ hno 0x0a (Or.inl rfl)
+    match eol with
+    | 0 => simpa [eolText] using lf
+    | 1 =>
+      have := skipWs_comment (C := C) (commentText t) (0x0a :: r) hno 0x0d (Or.inr rfl)
+      simp only [eolText, List.append_assoc, List.cons_append, List.nil_append]
+      rw [this]
+      exact skipWs_ws hC (by decide) r
+    | 2 =>
+      have := skipWs_comment (C := C) (commentText t) r hno 0x0d (Or.inr rfl)
       simpa [eolText] using this
-    | 3, _ =>
+    | 3 =>
       cases b with
       | false => simpa [eolText] using lf
       | true =>
@@ -392,49 +395,46 @@ theorem renderItem_skip (b : Bool) (it : LItem) (hit : itemLf it = true) (r : Li
         simp only [eolText, if_true, List.append_nil]
         rw [skipWs_comment_end _ hno]
         simp [skipWs]
-    | n + 4, _ => simpa [eolText] using lf
+    | n + 4 => simpa [eolText] using lf
 
 include hC in
-theorem renderLay_skip (lay : List LItem) (hl : lay.all itemLf = true) (r : List Nat) :
+theorem renderLay_skip (lay : List LItem) (r : List Nat) :
     skipWs C .eof false (renderLay r.isEmpty lay ++ r) = skipWs C .eof false r := by
   induction lay with
   | nil => rfl
   | cons it rest ih =>
-    simp only [List.all_cons, Bool.and_eq_true] at hl
     cases rest with
     | nil =>
       simp only [renderLay]
-      exact renderItem_skip hC _ it hl.1 r (by intro h; simpa using h)
+      exact renderItem_skip hC _ it r (by intro h; simpa using h)
     | cons it' rest' =>
       simp only [renderLay, List.append_assoc]
-      rw [renderItem_skip hC false it hl.1 _ (by intro h; cases h)]
-      exact ih hl.2
+      rw [renderItem_skip hC false it _ (by intro h; cases h)]
+      exact ih
 
 include hC in
 /-- same, with `atEnd = false` (layout between repeated semicolons) -/
-theorem renderLay_skip_false (lay : List LItem) (hl : lay.all itemLf = true) (r : List Nat) :
+theorem renderLay_skip_false (lay : List LItem) (r : List Nat) :
     skipWs C .eof false (renderLay false lay ++ r) = skipWs C .eof false r := by
   induction lay with
   | nil => rfl
   | cons it rest ih =>
-    simp only [List.all_cons, Bool.and_eq_true] at hl
     cases rest with
     | nil =>
       simp only [renderLay]
-      exact renderItem_skip hC _ it hl.1 r (by intro h; cases h)
+      exact renderItem_skip hC _ it r (by intro h; cases h)
     | cons it' rest' =>
       simp only [renderLay, List.append_assoc]
-      rw [renderItem_skip hC false it hl.1 _ (by intro h; cases h)]
-      exact ih hl.2
+      rw [renderItem_skip hC false it _ (by intro h; cases h)]
+      exact ih
 
 include hC in
 theorem after_skip (k : Prev) (s : Slot) (hs : slotOK s = true) (rest : List Nat) :
     skipWs C .eof false (after T k s rest) = skipWs C .eof false rest := by
-  simp only [slotOK, Bool.and_eq_true] at hs
   unfold after
   split
   · exact skipWs_ws hC (by decide) rest
-  · exact renderLay_skip hC s.lay hs.1.2 rest
+  · exact renderLay_skip hC s.lay rest
 
 include hC in
 /-- a keyword's layout (slot without `glue`): a white-space character, then skippable text; `lt`
@@ -444,10 +444,10 @@ theorem afterKw_form (lt : Bool) (s : Slot) (hs : slotOK s = true) (rest : List 
         skipWs C .eof false tl = skipWs C .eof false rest) ∨
     (lt = true ∧ afterKw T lt s rest = rest) := by
   have hs' := hs
-  simp only [slotOK, Bool.and_eq_true, Bool.not_eq_true'] at hs
+  simp only [slotOK, Bool.not_eq_true'] at hs
   unfold afterKw
-  rw [if_neg (by simp [hs.1.1])]
-  have hsk := renderLay_skip hC s.lay hs.1.2 rest
+  rw [if_neg (by simp [hs])]
+  have hsk := renderLay_skip hC s.lay rest
   cases hl : renderLay rest.isEmpty s.lay with
   | nil =>
     simp only
